@@ -781,6 +781,49 @@ def run_resume_corpus(ctx):
                                       got, want)
                         ctx.case(("OC", fi, policy, seed, shape))
                         ctx.count("corpus:" + shape)
+                    # --- (f) a lone reader is stopped from outside write() while its share requests are in flight (no other
+                    #     reader has a request queued); afterwards another read on the SAME node object -- a new one, or a
+                    #     paused sibling that is resumed -- must still complete with its slice (seeded C04-d)
+                    for stop_at in (1, 2, 3, 4, 5, 6, 8, 10, 13, 17, 22):
+                        for shape in ("stop-alone-then-new-read", "stop-while-sibling-paused"):
+                            node = fresh_node(c, cap)
+                            case = {"kind": "stop-then-read-corpus", "file": [size, k, n, max_seg], "policy": policy, "seed": seed,
+                                    "shape": shape, "stop_at": stop_at}
+                            if shape == "stop-alone-then-new-read":
+                                first = [PassiveConsumer()]
+                                d = node.read(first[0], 0, None)
+                                d.addBoth(lambda r, cj=first[0]: setattr(cj, "result", r if r is not None else True))
+                                drive(rt, first, [(stop_at, 0, "stop")])
+                                follow = [(0, None), (seg + 3, 40)]
+                                cons = [PassiveConsumer() for _ in follow]
+                                for j, (off, sz) in enumerate(follow):
+                                    d = node.read(cons[j], off, sz)
+                                    d.addBoth(lambda r, j=j: setattr(cons[j], "result", r if r is not None else True))
+                                drive(rt, cons, [], max_steps=60000, horizon=600.0)
+                                checks = list(zip(cons, follow))
+                            else:
+                                ranges = [(0, None), (2, None)]
+                                cons = [PassiveConsumer() for _ in ranges]
+                                for j, (off, sz) in enumerate(ranges):
+                                    d = node.read(cons[j], off, sz)
+                                    d.addBoth(lambda r, j=j: setattr(cons[j], "result", r if r is not None else True))
+                                drive(rt, cons, [(0, 1, "pause"), (stop_at, 0, "stop"), (10 ** 5, 1, "resume")], max_steps=160000, horizon=600.0)
+                                checks = [(cons[1], ranges[1])]
+                            for cj, (off, sz) in checks:
+                                want = data[off:] if sz is None else data[off:off + sz]
+                                got = b"".join(cj.chunks)
+                                if cj.result is None:
+                                    ctx.violation("a read on a node hangs after an earlier read on the same node was stopped from "
+                                                  "outside write() with requests in flight", case, "corpus-hang-after-outside-stop",
+                                                  {"got_len": len(got), "want_len": len(want)})
+                                elif isinstance(cj.result, Failure):
+                                    ctx.violation("a read on a node fails after an earlier read on the same node was stopped",
+                                                  case, "corpus-failed-after-outside-stop:" + cj.result.type.__name__)
+                                else:
+                                    check(case, "a read after an outside stop did not receive exactly its slice",
+                                          "corpus-wrong-slice-after-outside-stop", got, want)
+                            ctx.case(("SC", fi, policy, seed, shape, stop_at))
+                            ctx.count("corpus:" + shape)
                     for X in (seg, 2 * seg, seg + 5, 17, 16, 3 * seg - 1, size - 9):
                         for shape in ("stop-then-reread", "read-then-reread", "concurrent-2", "concurrent-3"):
                             node = fresh_node(c, cap)
